@@ -48,7 +48,11 @@ Inductive expr :=
 | EFormat (template : list ascii) (args : list expr)    (* "...%s..." % (a, b, ...) with string arguments *)
 | ESlice (a lo hi : expr)       (* a[lo:hi]; a bound may be EConst VNone *)
 | ECall (f : string) (args : list expr)   (* a call of another function of the library: interpreted by the table [prim] *)
-| EListLit (l : list expr).
+| EListLit (l : list expr)
+| ERange (lo hi : expr)                   (* range(lo, hi) / np.arange(lo, hi), as the list of its integers *)
+| ESetDiff (a b : expr)                   (* set(a) - b : the elements of a (in a's order) that are not in b *)
+| ESorted (a : expr)                      (* sorted(list of integers) *)
+| EEnumFilter (ix x : string) (cond body src : expr).   (* [body for ix, x in enumerate(src) if cond] *)
 
 Inductive stmt :=
 | SSkip
@@ -125,6 +129,16 @@ Fixpoint join_strs (sep : list ascii) (l : list value) : option (list ascii) :=
                     | [] => Some x
                     | _ => option_map (fun t => x ++ sep ++ t) (join_strs sep l')
                     end
+  | _ => None
+  end.
+
+Fixpoint insertZ (x : Z) (l : list Z) : list Z :=
+  match l with [] => [x] | y :: l' => if x <=? y then x :: l else y :: insertZ x l' end.
+Definition sortZ (l : list Z) : list Z := fold_right insertZ [] l.
+Fixpoint ints_of (l : list value) : option (list Z) :=
+  match l with
+  | [] => Some []
+  | VInt z :: l' => option_map (cons z) (ints_of l')
   | _ => None
   end.
 
@@ -495,6 +509,49 @@ Fixpoint eval (e : expr) (r : env) {struct e} : value :=
                       | other => if is_bad x then (match bad2 x other with Some e => e | None => other end) else other
                       end
          end) l
+  | ERange lo hi => let x := eval lo r in let y := eval hi r in
+                    match bad2 x y with
+                    | Some e => e
+                    | None => match x, y with
+                              | VInt a, VInt b => VList (map (fun k => VInt (a + Z.of_nat k)) (seq 0 (Z.to_nat (b - a))))
+                              | _, _ => VErr
+                              end
+                    end
+  | ESetDiff a b => let x := eval a r in let y := eval b r in
+                    match bad2 x y with
+                    | Some e => e
+                    | None => match x, y with
+                              | VList p, VList q => VList (filter (fun v => negb (existsb (veqb v) q)) p)
+                              | _, _ => VErr
+                              end
+                    end
+  | ESorted a => match eval a r with
+                 | VList l => match ints_of l with Some zs => VList (map VInt (sortZ zs)) | None => VErr end
+                 | VExc => VExc
+                 | _ => VErr
+                 end
+  | EEnumFilter ix x cond body src =>
+      match eval src r with
+      | VExc => VExc
+      | v => match elements v with
+             | None => VErr
+             | Some xs =>
+                 (fix go (k : Z) (xs : list value) : value :=
+                    match xs with
+                    | [] => VList []
+                    | v :: xs' =>
+                        let r' := set x v (set ix (VInt k) r) in
+                        match truthy (eval cond r') with
+                        | VBool true => let y := eval body r' in
+                                        if is_bad y then y
+                                        else match go (k + 1) xs' with VList t => VList (y :: t) | other => other end
+                        | VBool false => go (k + 1) xs'
+                        | VExc => VExc
+                        | _ => VErr
+                        end
+                    end) 0 xs
+             end
+      end
   end.
 
 Inductive outcome :=
@@ -617,6 +674,16 @@ Fixpoint split_at_for (s : stmt) : option (list stmt * (string * expr * stmt) * 
 Lemma exec_seq a b r : exec (SSeq a b) r = match exec a r with ONorm r' => exec b r' | other => other end.
 Proof. reflexivity. Qed.
 
+Lemma exec_if c a b r : exec (SIf c a b) r =
+  match truthy (eval c r) with
+  | VBool true => exec a r
+  | VBool false => exec b r
+  | VExc => ORaise
+  | VOpaque => match a, b with SSkip, SSkip => ONorm r | _, _ => OErr end
+  | _ => OErr
+  end.
+Proof. reflexivity. Qed.
+
 Lemma exec_split s : forall pre x e body rest r, split_at_for s = Some (pre, (x, e, body), rest) ->
   exec s r = match exec_list pre r with
              | ONorm r1 => match exec (SFor x e body) r1 with ONorm r2 => exec rest r2 | other => other end
@@ -698,6 +765,33 @@ Proof.
   induction xs as [|v xs IH]; cbn [comp_list]; try reflexivity; rewrite IH; reflexivity.
 Qed.
 
+(* the list [body for ix, x in enumerate(xs) if cond] builds, as a function of the element list and the first index *)
+Fixpoint enum_list (ix x : string) (cond body : expr) (k : Z) (xs : list value) (r : env) : value :=
+  match xs with
+  | [] => VList []
+  | v :: xs' =>
+      let r' := set x v (set ix (VInt k) r) in
+      match truthy (eval cond r') with
+      | VBool true => let y := eval body r' in
+                      if is_bad y then y
+                      else match enum_list ix x cond body (k + 1) xs' r with VList t => VList (y :: t) | other => other end
+      | VBool false => enum_list ix x cond body (k + 1) xs' r
+      | VExc => VExc
+      | _ => VErr
+      end
+  end.
+
+Lemma eval_enumfilter ix x cond body src r : eval (EEnumFilter ix x cond body src) r =
+  match eval src r with
+  | VExc => VExc
+  | v => match elements v with None => VErr | Some xs => enum_list ix x cond body 0 xs r end
+  end.
+Proof.
+  cbn [eval]. destruct (eval src r); try reflexivity;
+  match goal with |- match elements ?v with _ => _ end = _ => destruct (elements v) as [xs|]; [|reflexivity] end;
+  generalize 0; induction xs as [|v xs IH]; intros k; cbn [enum_list]; try reflexivity; rewrite IH; reflexivity.
+Qed.
+
 (* a right-nested sequence is the list of its statements *)
 Fixpoint spine (s : stmt) : list stmt :=
   match s with SSeq a b => a :: spine b | _ => [s] end.
@@ -735,9 +829,11 @@ End Interp.
 
 Arguments exec_for {prim wfuel}.
 Arguments exec_seq {prim wfuel}.
+Arguments exec_if {prim wfuel}.
 Arguments exec_split {prim wfuel}.
 Arguments exec_while {prim wfuel}.
 Arguments exec_spine {prim wfuel}.
 Arguments eval_comp {prim}.
+Arguments eval_enumfilter {prim}.
 Arguments run_loop_rule {prim wfuel S}.
 Definition noprim : string -> list value -> value := fun _ _ => VErr.
